@@ -358,7 +358,8 @@ Variable offp : str.
 
 (* Failures that must be reported: (call, errno) pairs outside the expected
    conditions.  Expected: EEXIST of a mkdir (the ancestor is there), ENOENT /
-   EACCES of the open of the source, EEXIST of the exclusive create, ENOENT of
+   ENOTDIR ("the path no longer leads to a file") / EACCES of the open of the
+   source, EEXIST of the exclusive create, ENOENT of
    the unlink of the offset file.  NOT in this class, because their failure is
    ignored by design or context-dependent: close (see the [closes] facts
    below), rmdir (clean_up drops its errors: "FIXME cleanup error reporting" in
@@ -366,7 +367,7 @@ Variable offp : str.
 Definition reported_class (c : call) (e : errno) : bool :=
   match c with
   | CMkdir _ => match e with EEXIST => false | _ => true end
-  | COpenR _ => match e with ENOENT | EACCES => false | _ => true end
+  | COpenR _ => match e with ENOENT | ENOTDIR | EACCES => false | _ => true end
   | COpenExcl _ => match e with EEXIST => false | _ => true end
   | CFstat | CSendfile _ _ | COpenW _ | CFtruncate | CWrite _ => true
   | CUnlink p => str_eqb p offp && match e with ENOENT => false | _ => true end
@@ -2626,6 +2627,7 @@ Module FaultExample.
   Definition s_newer : str := ["n"; "e"; "w"; "e"; "r"].
   Definition s_17 : str := ["1"; "7"].
   Definition p_swa : str := ["/"; "s"; "/"; "w"; "/"; "a"].
+  Definition p_w : str := ["/"; "w"].
   Local Close Scope char_scope.
 
   Definition fail_at (k : nat) (e : errno) : oracle := fun i => if Nat.eqb i k then FFail e else FNone.
@@ -2835,6 +2837,23 @@ Module FaultExample.
     (let '(r, w) := handle_timeout false h0 no_faults (w_of fs_dir) in
      (match r with Some (TPause _, _) => True | _ => False end) /\ tr_ok (w_tr w) = true /\
      lookup (w_fs w) qlink = None /\ vdents offp0 (w_fs w) = [(p_journal, NFile 3)]).
+  Proof. vm_compute. repeat split. Qed.
+
+  (* the parent directory of the source has been replaced by a regular file:
+     the open answers ENOTDIR, which is the expected condition "the source does
+     not exist" (journalled as deleted, head popped, trace ok) *)
+  Definition fs_notdir : fs :=
+    mkFs [ (p_store, NDir); (p_off, NDir); (p_journal, NFile 3); (p_queue, NDir);
+           (qlink, NLink (encode 2 path0) 0%Z); (p_w, NFile 4) ]
+         [ (3, mkFile [] true); (4, mkFile s_newer true) ] 5.
+
+  Example source_under_a_file_is_deleted :
+    fs_open_read path0 fs_notdir = inr ENOTDIR /\
+    let '(r, w) := handle_timeout false h0 no_faults (w_of fs_notdir) in
+    (match r with Some (TPause _, _) => True | _ => False end) /\ tr_ok (w_tr w) = true /\
+    lookup (w_fs w) qlink = None /\
+    vdents offp0 (w_fs w) = [(p_journal, NFile 3); (p_w, NFile 4)] /\
+    existsb (fun cr => match cr with (COpenR _, RErr ENOTDIR) => true | _ => false end) (w_log w) = true.
   Proof. vm_compute. repeat split. Qed.
 
   (* clean_up drops its errors: with the source missing, a failing rmdir of the
